@@ -61,6 +61,7 @@ FIXED_SPECS = [
     ('allof-any-first', {'t': 'allof', 'xs': [{'t': 'any'}, O({'meta': O({'a': S})})]}, {}),
     ('union-map-of-objects', {'t': 'anyof', 'xs': [{'t': 'map', 'k': S, 'v': O({'name': S})}, NULL]}, {}),
     ('union-set-of-objects', {'t': 'anyof', 'xs': [{'t': 'set', 'x': O({'label': S})}, {'t': 'array', 'x': O({'label': S})}]}, {}),
+    ('array-num', {'t': 'array', 'x': N}, {}),
     ('disc-missing-tag', O({'ev': {'t': 'disc', 'key': 'type', 'mapping': {'a': O({'v': N}), 'b': O({'w': OPT(S)})}}}), {}),
 ]
 
